@@ -7,7 +7,7 @@ claimed = {
  "C03": ("other", "Go-side proof of the slice/string templates of the Bash converter (argument positions, fresh helpers, helper flags, pinned helper bodies emitted iff flagged). The run-time behaviour of the pinned helper routines (growth, aliasing) is Bash executing them and is not proved.", "§5 C03"),
  "C10": ("proof", "Emitter side of capture-freedom: every compiler-owned name the Bash converter emits is proved to have the reserved shape (_h<n>, _rv<n>, _fv<n>, f<k>_<name>); see level_note for what is not yet covered.", "§5 C10"),
  "C16": ("proof", "Structural protocol of the Bash emitter: each opener/closer emits exactly its keyword line, closers require an open construct, empty bodies get a no-op, helper routines are emitted exactly when their flag is set.", "§5 C16"),
- "C17": ("other", "Go-side proof that write/read/exists emit the specified templates with the arguments in their positions; what the file system then holds is Bash's doing and is trusted.", "§5 C17"),
+ "C17": ("other", "Go-side proof that write/read/exists emit the specified templates with the arguments in their positions; what the file system then holds is Bash's doing and is trusted. Batch side: write puts the content into the register _fa0 and calls :_fwh with path and append flag in this order, read calls :_frh and copies its register into a fresh helper, exists sets a fresh helper to 1/0 from an if-exist test of the quoted path; the :_fwh / :_frh routine bodies are pinned text, emitted exactly when used.", "§5 C17"),
 }
 claimed.update({
  "C08": ("proof", "Per emitting site of the Bash converter the emitted line, as an SMT string with symbolic operands, is proved equal to a template in which the operand sits inside one pair of double quotes (assignment, concatenation, comparison, print, call argument, parameter binding, return register, substring, exists/read path), input() reads raw lines, the lexer's char() returns the byte itself. The sites where the property does NOT hold on the unchanged tree are stated from the property, fail with a counter-model, and are listed as known findings with witnesses (no escaping of double-quote specials, echo options, eval-based slice stores and write()).", "§5 C08"),
@@ -27,20 +27,20 @@ notes = {
  "C08": "Trusted: Bash quoting rules (manual 3.1.2). Batch data paths are not claimed under C08. The six failing clauses are known findings (known_findings.txt), not proved.",
  "C11": "Uninterpreted regexp model with shape axioms (prefix, non-empty match decided by running the real regexp engine on the constant pattern). Column bookkeeping after block comments is not covered (a seeded change there is missed, see DESIGN.md).",
  "C12": "Relational property: only the listed single-run facts are machine-checked.",
- "C14": "The map-order analysis is syntactic (go/ssa), not SMT; process-level nondeterminism other than map iteration (none exists in the code: no goroutines, no time, no random) is excluded by the outside-subset check.",
+ "C14": "Added: the prefix of an imported file is a digest fed with exactly the bytes read from that file (one Write of the ReadFile result before Sum), so it does not depend on where the file lies. The map-order analysis is syntactic (go/ssa), not SMT; process-level nondeterminism other than map iteration (none exists in the code: no goroutines, no time, no random) is excluded by the outside-subset check.",
  "C19": "Trusted: os.Stat/WriteFile, filepath.Base/Ext/Join uninterpreted with the assumed fact that Ext(p) is a suffix of Base(p); a panic is the non-zero exit (Go runtime fact). 'never modifies its input' (output path differs from input path) is not proved.",
  "C13": "Termination (import cycles, parser recursion) is not proved: no decreases clauses yet. Mathematical integers (A1); stack depth and memory exhaustion not modelled. Undecided obligations are listed in the evidence.",
  "C06": "Statement-level typing (definitions/assignments/returns/conditions) is not yet under contract; ordering comparison of strings, the argument type of panic and print are unspecified and not demanded. Library models: strconv.Atoi/ParseBool uninterpreted.",
  "C07": "Trusted: maps.Clone / slices.Clone models (fresh reference, same content). Shadowing rules inside one block are only covered as far as the listed clauses go.",
  "C09": "Trusted: os/filepath/sha256 uninterpreted; acyclicity of the call graph (recursion through getUsedFuncs is handled modularly, termination is not proved).",
  "C04": "Trusted: a helper reference (${_hN}) can be expanded any number of times without effect; the parser's AST keeps one node per source operand (parser-side clause pending); govc; solvers.",
- "C05": "Trusted: cmd.exe semantics (parse-time %, run-time !, label search, IF numeric vs string, call/exit /B, set /A). Pinned helper routine bodies of ProgramEnd are not yet under contract.",
+ "C05": "Trusted: cmd.exe semantics (parse-time %, run-time !, label search, IF numeric vs string, call/exit /B, set /A). The ten helper routines of ProgramEnd are pinned text (compared with a reviewed constant, each handed to addHelper exactly when needed, none twice); their meaning under cmd.exe is not proved.",
  "C18": "Trusted: Bash/cmd word splitting, pipes and $? (shell facts). The order in which the transpiler walks the chain (a linked list of parser.AppCall) is not under contract; the Batch capture helper body is not either. One known finding (bare arguments).",
  "C01": "Trusted: Bash semantics of $(( )), [ ], $(if ..), while/break/continue, echo, exit (spec/shell_facts.md); govc itself; SMT solvers; library models (Sprintf, Join, Itoa). Parser precedence chain and transpiler call order are covered by C06/C04 checks as they come online.",
  "C02": "Trusted: Bash semantics of functions, local, positional parameters, return; assumption A2 (FuncCall writes the quoted arguments through the caller's slice).",
  "C03": "Trusted: Bash arrays, eval-based indirect expansion, ${v:o:l}, ${#v}; pinned helper bodies are compared with a reviewed constant, their meaning is not proved.",
  "C10": "Emitter side proved for both converters (helper, register, label, flag and mangled names have the reserved shape). The user side (no check keeps user identifiers out of the reserved shapes) is a known finding with a witness.",
- "C16": "bash -n is not run by the deciding step; that balanced protocol + non-empty bodies implies syntactic validity is a shell fact. Batch side pending.",
+ "C16": "bash -n is not run by the deciding step; that balanced protocol + non-empty bodies implies syntactic validity is a shell fact. Batch: label allocator uniqueness, every helper routine present exactly when its flag (or a routine depending on it) is set, helper wrapper shape (begin comment, skip jump, label, exit /B, end label), :end label and exit line.",
  "C17": "Trusted: > / >> redirection, echo's newline, $(cat f), [ -e f ]. Quoting of path/content inside the eval string is C08's business (known finding).",
 }
 na = [
